@@ -51,7 +51,7 @@ def make_table(seed, i):
         for g in groups:
             for m in metrics:
                 if r.random() < p_missing:
-                    cells[(s, g, m)] = str(r.choice(["", "nan", "inf", "-inf"]))
+                    cells[(s, g, m)] = str(r.choice(["", "nan", "inf", "-inf", "NaN", "Infinity", "-Infinity", "-nan", "1e999", "-1e999", "INF"]))
                 else:
                     v = float(r.normal()) * scale if r.random() < 0.8 else float(int(r.integers(0, 3)))
                     cells[(s, g, m)] = v
@@ -111,7 +111,7 @@ def judge(ctx, st, groups, metrics, subjects, cells, via_file, tag=""):
                 all_have = False
                 continue
             raw = [cells[(s, g, m)] for s in subjects]
-            f2 = dict(feats, has_neg_inf="-inf" in raw, has_pos_inf="inf" in raw, has_nan="nan" in raw)
+            f2 = dict(feats, has_neg_inf=any(x in raw for x in ("-inf", "-Infinity", "-1e999")), has_pos_inf=any(x in raw for x in ("inf", "Infinity", "1e999", "INF")), has_nan=any(x in raw for x in ("nan", "NaN", "-nan")))
             try:
                 with np.errstate(all="ignore"):
                     su = st.get_summary(g, m)
